@@ -11,7 +11,7 @@ import numpy as np
 
 from .core import unhex
 
-LAYOUTS = ('C', 'F', 'view', 'neg', 'int64', 'Fview')
+LAYOUTS = ('C', 'F', 'view', 'neg', 'int64', 'Fview', 'int64+F', 'int64+view', 'int64+Fview')
 _ADDR = re.compile(r'0x[0-9a-fA-F]+')
 
 
@@ -22,6 +22,21 @@ def deliver(values, layout, salt):
     values are identical; only strides / order / dtype / base differ."""
     a = np.array(values, dtype=np.float64, order='C')
     rr = random.Random(salt)
+    if layout.startswith('int64+'):
+        # dtype and memory layout are independent: the integer representation in another layout
+        base = deliver(values, layout[6:], salt)
+        if layout[6:] in ('C', 'F'):
+            return base.astype(np.int64)                       # keeps the order ('K')
+        # rebuild the same window / reversed view over an integer buffer
+        root = base
+        while root.base is not None:
+            root = root.base
+        iroot = root.astype(np.int64) if np.all(np.isfinite(root)) and np.all(np.abs(root) < 2 ** 62) else None
+        if iroot is None:
+            iroot = np.where(np.isfinite(root) & (np.abs(root) < 2 ** 62), root, 7).astype(np.int64)
+        v = _same_view(iroot, root, base)
+        assert v.shape == a.shape and np.array_equal(v.astype(float), a)
+        return v
     if layout == 'C':
         return a
     if layout == 'F':
@@ -61,6 +76,13 @@ def deliver(values, layout, salt):
     if layout == 'int64':
         return a.astype(np.int64)
     raise ValueError(layout)
+
+
+def _same_view(iroot, root, view):
+    """The view of `iroot` (same shape, dtype size and strides as `root`) that corresponds to `view` of `root`."""
+    off = view.__array_interface__['data'][0] - root.__array_interface__['data'][0]
+    return np.ndarray(shape=view.shape, dtype=iroot.dtype, buffer=iroot, offset=off if off >= 0 else 0, strides=view.strides) \
+        if off >= 0 else None
 
 
 def integral(values, bound=2 ** 20):
